@@ -15,10 +15,14 @@ type verifMirEnt struct {
 	uid        uint32
 	flagsKnown bool
 	flags      int
+	// selfComputed: the client did not read these flags off a response, it computed them after a .SILENT store
+	selfComputed bool
 }
 
 type verifMirror struct {
 	ents []verifMirEnt
+	// selfTag: when non-empty, a mismatch of self-computed flags belongs to this known-finding class
+	selfTag string
 }
 
 func (m *verifMirror) apply(r response.Response) {
@@ -46,6 +50,7 @@ func (m *verifMirror) apply(r response.Response) {
 			if d.HasFlags {
 				e.flagsKnown = true
 				e.flags = verifFlagMask(d.Flags)
+				e.selfComputed = false
 			}
 			if d.HasUID {
 				if e.uidKnown {
@@ -75,9 +80,15 @@ func (m *verifMirror) probe(snap *snapshot) {
 		}
 		fm := verifFlagMask(msg.flags)
 		if e.flagsKnown {
-			vsymAssert(e.flags == fm, "flags the client learned equal the flags the server answers")
+			if e.selfComputed && m.selfTag != "" {
+				vsymKnown(m.selfTag, true)
+				vsymAssert(e.flags == fm, "flags the client computed after a .SILENT store equal the flags the server answers")
+				vsymKnownClear(m.selfTag)
+			} else {
+				vsymAssert(e.flags == fm, "flags the client learned equal the flags the server answers")
+			}
 		}
-		e.uidKnown, e.uid, e.flagsKnown, e.flags = true, u, true, fm
+		e.uidKnown, e.uid, e.flagsKnown, e.flags, e.selfComputed = true, u, true, fm, false
 		// index consistency
 		got, ok := snap.messages.idx[msg.ID.InternalID]
 		vsymAssert(ok && got == msg, "snapshot index consistent with list")
